@@ -173,6 +173,21 @@ func (c *Ctx) checkCopy(rule string, fi *load.FuncInfo, root ast.Node, dst, src 
 		if subsetOK {
 			continue
 		}
+		// one obligation per field as well (so that a property which depends on one field can borrow just that one)
+		miss := map[string]bool{}
+		for _, m := range missing {
+			miss[m] = true
+		}
+		for _, w := range want {
+			if skipSrc[w] {
+				continue
+			}
+			if miss[w] {
+				r.Fail(rule, fi.Name(), "copies field "+w+" into "+dst.Obj().Name(), pos, "this copy of "+src.Obj().Name()+" into "+dst.Obj().Name()+" does not (unconditionally) copy "+w+": with a re-used destination the field keeps the value of the previous entry, otherwise it is lost")
+			} else {
+				r.Ok(rule, fi.Name(), "copies field "+w+" into "+dst.Obj().Name(), pos, "copied in the same block as the other fields")
+			}
+		}
 		if len(missing) == 0 {
 			r.Ok(rule, fi.Name(), "copies every field into "+dst.Obj().Name(), pos, "all of "+strings.Join(want, ","))
 		} else {
